@@ -89,6 +89,7 @@ def cut_loop():
     ast.fix_missing_locations(mod)
     g = dict(tdsmod.__dict__)
     g['logger'] = _Log()
+    g['np'] = pysym.NPX
     exec(compile(mod, '<repo:TDS.run loop, cut from current source>', 'exec'), g)
     _CUT = (g['_body'], g['_test'], g['_epilogue'], cuts)
     return _CUT
@@ -122,6 +123,12 @@ def make_tds(I, idx, nsw=3, base_case=False, conv_fix=None, fixt_fix=None):
     system.switch_action = lambda models: fired.append((models, dae.t))
     system.vars_to_models = lambda: None
     tds.system, tds.config = system, cfg
+    if I.symbolic:
+        # numpy functions that do not delegate to objects (isclose, isnan) are given their definition on symbols
+        for nm in ('calc_h', 'do_switch', '_calc_h_first'):
+            f = getattr(TDS, nm)
+            g2 = dict(f.__globals__); g2['np'] = pysym.NPX; g2['logger'] = _Log()
+            setattr(tds, nm, types.MethodType(types.FunctionType(f.__code__, g2, f.__name__, f.__defaults__, f.__closure__), tds))
     tds.h = I.real('h')
     tds.deltat, tds.deltatmin, tds.deltatmax = I.real('deltat'), I.real('dtmin'), I.real('dtmax')
     tds.niter = I.real('niter')
@@ -437,7 +444,7 @@ def main():
     ck.bound(pending_events=3, iterations_per_query=1, event_models='<= 2 with <= 2 timers', devices_per_event_model='<= 2',
              arithmetic='reals (exact landing in binary64: see fp lemma in thorough tier)')
     body, test, epi, cuts = cut_loop()
-    ck.stub('itm_step -> free boolean success + free iteration count', 'dae.store -> recorder', 'system.switch_action -> recorder '
+    ck.stub('numpy.isclose / numpy.isnan on symbols: their numpy definitions (vlib.pysym.NumpyProxy)', 'itm_step -> free boolean success + free iteration count', 'dae.store -> recorder', 'system.switch_action -> recorder '
             '(loop harness)', 'streaming_step/check_criteria/progress bar -> no-ops',
             'cut from loop body: ' + '; '.join(cuts))
     ck.assume('time is a real number (float landing is the separate binary64 lemma)',
